@@ -61,10 +61,16 @@ MUTANTS = """
   M7 _fvutils.partial_update_discretization: the one-layer cell overlap for cell-row matrices dropped
        caught by "Biot.discretize: update_discretization(modified cells/faces) equals a full rediscretisation" only
 
-  Unchanged tree: UPDATE-F fails for Biot -- ``Biot.discretize`` with ``update_discretization=True`` raises
-  ``TypeError: unhashable type: 'numpy.ndarray'`` (biot.py, update branch indexes the per-coupling-key *dict*
-  ``matrices_m['displacement_divergence']`` with a cell-index array).  Signature "raises TypeError".  Reported to the lead;
-  the check is kept strict.
+  (M7 is told apart from the genuine finding below by the signature: "vertex-neighbour cell row differs" vs "distant cell row differs".)
+
+  Unchanged tree -- two candidate genuine defects, both reported to the lead, check kept strict:
+   F1 UPDATE-F, Biot: ``Biot.discretize`` with ``update_discretization=True`` raises ``TypeError: unhashable type: 'numpy.ndarray'``
+      (biot.py update branch indexes the per-coupling-key *dict* ``matrices_m['displacement_divergence']`` with a cell-index array).
+      Signature "raises TypeError".
+   F2 UPDATE-M, Biot: ``Biot.update_discretization`` (modified_cells=[corner cell] on a 5x4 Cartesian grid) overwrites the rows of the
+      cell-row coupling matrices (displacement_divergence, boundary_displacement_divergence, mpsa_consistency) of a cell that is merely
+      adjacent to an active face but whose vertex stencils are not all inside the active subgrid (cell 7 for modified cell 19): the row
+      then contains contributions of artificial Neumann faces of the subgrid.  Signature "distant cell row differs after changing cells".
 """
 
 import warnings
@@ -154,6 +160,10 @@ def flatten(M):
     return out
 
 
+def inv_args(method, inverter):
+    return {} if inverter is None else {("mpfa_inverter" if method == "mpfa" else "inverter"): inverter}
+
+
 def discretize(pp, method, g, params, extra=None):
     p = dict(params)
     p.update(extra or {})
@@ -166,6 +176,21 @@ def discretize(pp, method, g, params, extra=None):
 
 def mats(pp, method, data):
     return flatten(data[pp.DISCRETIZATION_MATRICES][KWS[method]])
+
+
+_REF: dict = {}
+
+
+def reference(pp, method, spec, g, seed, layout, scale_cells=None, flip_faces=None, inverter=None):
+    """the one-piece discretisation (memoised per run: it is the common reference of all relations of a case family)"""
+    key = (method, repr(sorted(spec.items())), seed, layout, None if scale_cells is None else tuple(int(c) for c in scale_cells),
+           None if flip_faces is None else tuple(int(f) for f in flip_faces), inverter)
+    if key not in _REF:
+        if len(_REF) > 64:
+            _REF.clear()
+        params = make_params(pp, method, g, seed, layout, scale_cells=scale_cells, flip_faces=flip_faces)
+        _REF[key] = {k: v.copy() for k, v in mats(pp, method, discretize(pp, method, g, params, inv_args(method, inverter))).items()}
+    return _REF[key]
 
 
 def compare(ref, other, rows=None):
@@ -237,12 +262,12 @@ def _fmt(diff):
     return f"first difference: {diff}"
 
 
-def check_split(pp, method, spec, seed, layout, part_args):
+def check_split(pp, method, spec, seed, layout, part_args, inverter=None):
     g = build_grid(pp, spec)
     params = make_params(pp, method, g, seed, layout)
     try:
-        ref = mats(pp, method, discretize(pp, method, g, params))
-        got = mats(pp, method, discretize(pp, method, g, params, {"partition_arguments": dict(part_args)}))
+        ref = reference(pp, method, spec, g, seed, layout, inverter=inverter)
+        got = mats(pp, method, discretize(pp, method, g, params, dict(inv_args(method, inverter), partition_arguments=dict(part_args))))
     except Exception as e:
         return [(ob(method, O_RUN), "split raises", f"partition_arguments={part_args}: {type(e).__name__}: {e}")]
     diff = compare(ref, got)
@@ -254,20 +279,23 @@ def check_inverter(pp, method, spec, seed, layout):
     params = make_params(pp, method, g, seed, layout)
     key = "mpfa_inverter" if method == "mpfa" else "inverter"
     try:
-        a = mats(pp, method, discretize(pp, method, g, params, {key: "numba"}))
+        a = reference(pp, method, spec, g, seed, layout)  # default inverter = numba
+        a2 = mats(pp, method, discretize(pp, method, g, params, {key: "numba"}))
         b = mats(pp, method, discretize(pp, method, g, params, {key: "python"}))
+        if compare(a, a2):
+            return [(ob(method, O_INV), "explicit numba differs from default", _fmt(compare(a, a2)))]
     except Exception as e:
         return [(ob(method, O_RUN), "inverter raises", f"{type(e).__name__}: {e}")]
     diff = compare(a, b)
     return [(ob(method, O_INV), f"{g.dim}d {spec['kind']}", _fmt(diff))] if diff else []
 
 
-def check_partial(pp, method, spec, seed, layout, mode, idx):
+def check_partial(pp, method, spec, seed, layout, mode, idx, inverter=None):
     g = build_grid(pp, spec)
     params = make_params(pp, method, g, seed, layout)
     try:
-        ref = mats(pp, method, discretize(pp, method, g, params))
-        got = mats(pp, method, discretize(pp, method, g, params, {"specified_" + mode: np.asarray(idx, dtype=int)}))
+        ref = reference(pp, method, spec, g, seed, layout, inverter=inverter)
+        got = mats(pp, method, discretize(pp, method, g, params, dict(inv_args(method, inverter), **{"specified_" + mode: np.asarray(idx, dtype=int)})))
     except Exception as e:
         return [(ob(method, O_RUN), f"partial {mode} raises", f"specified_{mode}={list(idx)}: {type(e).__name__}: {e}")]
     faces, cells = targets(g, mode, idx)
@@ -275,7 +303,7 @@ def check_partial(pp, method, spec, seed, layout, mode, idx):
     return [(ob(method, O_PART), f"{g.dim}d {spec['kind']} specified_{mode}", f"specified_{mode}={list(idx)}: {_fmt(diff)}")] if diff else []
 
 
-def check_update(pp, method, spec, seed, layout, what, idx, via):
+def check_update(pp, method, spec, seed, layout, what, idx, via, inverter=None):
     """what = 'cells' (material change in cells idx) | 'faces' (boundary type flipped on boundary faces idx);
     via = 'method' (update_discretization(sd, data)) | 'flag' (parameter update_discretization=True + specified_*)"""
     g = build_grid(pp, spec)
@@ -285,8 +313,9 @@ def check_update(pp, method, spec, seed, layout, what, idx, via):
     new = make_params(pp, method, g, seed, layout, scale_cells=idx if what == "cells" else None, flip_faces=idx if what == "faces" else None)
     clause = O_UPM if via == "method" else O_UPF
     try:
-        ref = mats(pp, method, discretize(pp, method, g, new))
-        data = discretize(pp, method, g, old)
+        ref = reference(pp, method, spec, g, seed, layout, scale_cells=idx if what == "cells" else None,
+                        flip_faces=idx if what == "faces" else None, inverter=inverter)
+        data = discretize(pp, method, g, old, inv_args(method, inverter))
         before = {k: v.copy() for k, v in mats(pp, method, data).items()}
         if compare(ref, before) is None:
             return []  # the change had no effect (cannot happen with these scalings; then nothing to check)
@@ -308,7 +337,23 @@ def check_update(pp, method, spec, seed, layout, what, idx, via):
     except Exception as e:
         return [(ob(method, clause), f"raises {type(e).__name__}", f"changed {what} {idx.tolist()}: {type(e).__name__}: {e}")]
     diff = compare(ref, got)
-    return [(ob(method, clause), f"{g.dim}d {spec['kind']} changed {what}", f"changed {what} {idx.tolist()}: {_fmt(diff)}")] if diff else []
+    if not diff:
+        return []
+    # classify the first differing row relative to the changed entities, so that different failure classes keep different signatures
+    cn = g.cell_nodes().toarray().astype(bool)
+    fn = g.face_nodes.toarray().astype(bool)
+    touched = cn[:, idx].any(axis=1) if what == "cells" else fn[:, idx].any(axis=1)  # vertices of the changed cells / faces
+    if str(diff[0]).split("/")[0] in CELL_ROW_KEYS and isinstance(diff[1], int):
+        c = diff[1]
+        where = "changed" if (what == "cells" and c in idx) else ("vertex-neighbour" if cn[touched, c].any() else "distant")
+        rowkind = f"{where} cell row differs"
+    elif isinstance(diff[1], int):
+        f = diff[1] if method == "mpfa" else diff[1] // g.dim
+        where = "vertex-neighbour" if fn[touched, f].any() else "distant"
+        rowkind = f"{where} face row differs"
+    else:
+        rowkind = "matrix sets differ"
+    return [(ob(method, clause), f"{rowkind} after changing {what}", f"{g.dim}d {spec['kind']}, changed {what} {idx.tolist()}: {_fmt(diff)}")]
 
 
 def check_subproblems(pp, spec, n):
@@ -404,12 +449,14 @@ def grid_specs(quick):
                 {"kind": "cart", "n": [4, 2, 2], "phys": [1.0, 1.0, 1.0], "pert_seed": None},
                 {"kind": "tet", "n": [3, 2, 1], "phys": [1.0, 1.0, 1.0], "pert_seed": 13}]
     else:
-        out += [{"kind": "cart", "n": [4, 2], "phys": [1.0, 1.0], "pert_seed": 11}]
+        out[1] = dict(out[1], pert_seed=12)  # the triangle grid is node-perturbed in quick
+        out += [  # large enough that the active subgrid of a corner-cell update is a proper subset of the grid; update relation only
+                {"kind": "cart", "n": [5, 4], "phys": [5.0, 4.0], "pert_seed": None, "only": "update"}]
     return out
 
 
 def _gname(spec):
-    return f"{spec['kind']}{'x'.join(map(str, spec['n']))}{'p' if spec['pert_seed'] is not None else ''}"
+    return f"{spec['kind']}{'x'.join(map(str, spec['n']))}{'p' if spec.get('pert_seed') is not None else ''}"
 
 
 def run(rep):
@@ -437,8 +484,10 @@ def run(rep):
              "heterogeneous parameters and seeded per-face Dirichlet/Neumann typing x relations {num_subproblems 2,3,5; max_memory giving 2 "
              "or 3 parts; numba vs python; specified_cells / faces / nodes (seeded index sets, nodes = all vertices of 1-2 cells); "
              "update_discretization() and the update flag after a seeded change of material in cells / boundary type on faces}; distinct by "
-             "(method, grid, relation, arguments); every case compares complete matrix sets and is non-trivial (parameters heterogeneous)",
-        bound="grids <= 5x4 / 4x2x2 cells / 36 tetrahedra; " + ("1" if quick else "4") + " index set(s) per partial/update mode",
+             "(method, grid, relation, arguments); every case compares complete matrix sets and is non-trivial (parameters heterogeneous); the "
+             "local inverter (irrelevant to the relations) is python for 3-D/Biot cases in quick and for every second case in thorough, numba "
+             "otherwise; first update case of each grid changes the last (corner) cell deterministically",
+        bound="grids <= 5x4 / 4x2x2 cells / 36 tetrahedra; " + ("2" if quick else "4") + " index set(s) per partial/update mode",
         exhaustive=False,
     ) as sw:
         for spec in specs:
@@ -456,42 +505,54 @@ def run(rep):
                     layout = "d" + layout[1:]
                 base = {"method": method, "grid": spec, "seed": seed, "layout": layout}
                 cases = []
-                for n in ((2, 3) if small3d else (2, 3, 5)):
+                only = spec.get("only")
+                for n in (() if only else ((2, 3) if small3d else (2, 3, 5))):
                     cases.append(("split", {"part_args": {"num_subproblems": n}}))
                 try:
+                    if only:
+                        raise AttributeError
                     d = make_discr(pp, method)
                     est = d._estimate_peak_memory(g) if method == "mpfa" else d._estimate_peak_memory_mpsa(g)
                     for parts in ((2,) if quick else (2, 3)):
                         cases.append(("split", {"part_args": {"max_memory": int(np.ceil(est / parts)) + 1}}))
                 except AttributeError:
-                    rep.note("peak memory estimate not accessible: max_memory splits skipped")
-                cases.append(("inverter", {}))
-                ntr = 1 if quick else 4
-                for _ in range(ntr):
+                    if not only:
+                        rep.note("peak memory estimate not accessible: max_memory splits skipped")
+                if not only:
+                    cases.append(("inverter", {}))
+                ntr = 2 if quick else 4
+                for trial in range(ntr):
                     cells = sorted(rng.sample(range(g.num_cells), rng.randrange(1, 3)))
                     faces = sorted(rng.sample(range(g.num_faces), rng.randrange(1, 3)))
                     cn = g.cell_nodes().toarray().astype(bool)
                     nodes = np.flatnonzero(cn[:, rng.sample(range(g.num_cells), rng.randrange(1, 3))].any(axis=1)).tolist()
-                    cases.append(("partial", {"mode": "cells", "idx": cells}))
-                    cases.append(("partial", {"mode": "faces", "idx": faces}))
-                    cases.append(("partial", {"mode": "nodes", "idx": nodes}))
-                    ucells = sorted(rng.sample(range(g.num_cells), rng.randrange(1, 3)))
+                    if not only:
+                        cases.append(("partial", {"mode": "cells", "idx": cells}))
+                        cases.append(("partial", {"mode": "faces", "idx": faces}))
+                        cases.append(("partial", {"mode": "nodes", "idx": nodes}))
+                    # first trial: the last (corner) cell, deterministic; then seeded sets
+                    ucells = [g.num_cells - 1] if trial == 0 else sorted(rng.sample(range(g.num_cells), rng.randrange(1, 3)))
                     ufaces = sorted(int(f) for f in rng.sample(list(bf), rng.randrange(1, 3)))
                     for via in ("method", "flag"):
                         cases.append(("update", {"what": "cells", "idx": ucells, "via": via}))
-                        if not small3d or via == "method":
+                        if (not small3d or via == "method") and not only:
                             cases.append(("update", {"what": "faces", "idx": ufaces, "via": via}))
-                for kind, args in cases:
+                for ci, (kind, args) in enumerate(cases):
+                    # the relations do not depend on the local inverter; the (4x faster on small grids) python inverter is used for
+                    # the 3-D / Biot cases in quick and for every second case in thorough, the default (numba) otherwise
+                    inverter = "python" if ((quick and (g.dim == 3 or method == "biot")) or (not quick and ci % 2 == 1)) else None
+                    if kind != "inverter":
+                        args = dict(args, inverter=inverter)
                     inputs = dict(base, relation=kind, **args)
                     key = (method, _gname(spec), kind, repr(sorted(args.items())))
                     if kind == "split":
-                        res = check_split(pp, method, spec, seed, layout, args["part_args"])
+                        res = check_split(pp, method, spec, seed, layout, args["part_args"], args["inverter"])
                     elif kind == "inverter":
                         res = check_inverter(pp, method, spec, seed, layout)
                     elif kind == "partial":
-                        res = check_partial(pp, method, spec, seed, layout, args["mode"], args["idx"])
+                        res = check_partial(pp, method, spec, seed, layout, args["mode"], args["idx"], args["inverter"])
                     else:
-                        res = check_update(pp, method, spec, seed, layout, args["what"], args["idx"], args["via"])
+                        res = check_update(pp, method, spec, seed, layout, args["what"], args["idx"], args["via"], args["inverter"])
                     sw.case(key, nontrivial=True, sample={k: v for k, v in inputs.items() if k != "layout"})
                     report(res, inputs)
 
@@ -537,13 +598,13 @@ def replay(data):
     i = data["inputs"]
     rel = i["relation"]
     if rel == "split":
-        res = check_split(pp, i["method"], i["grid"], i["seed"], i["layout"], i["part_args"])
+        res = check_split(pp, i["method"], i["grid"], i["seed"], i["layout"], i["part_args"], i.get("inverter"))
     elif rel == "inverter":
         res = check_inverter(pp, i["method"], i["grid"], i["seed"], i["layout"])
     elif rel == "partial":
-        res = check_partial(pp, i["method"], i["grid"], i["seed"], i["layout"], i["mode"], i["idx"])
+        res = check_partial(pp, i["method"], i["grid"], i["seed"], i["layout"], i["mode"], i["idx"], i.get("inverter"))
     elif rel == "update":
-        res = check_update(pp, i["method"], i["grid"], i["seed"], i["layout"], i["what"], i["idx"], i["via"])
+        res = check_update(pp, i["method"], i["grid"], i["seed"], i["layout"], i["what"], i["idx"], i["via"], i.get("inverter"))
     elif rel == "subproblems":
         res = check_subproblems(pp, i["grid"], i["n"])[0]
     else:
